@@ -9,4 +9,4 @@ pub fn run_case(out: &mut Out, _ro: &mut Reopener, _case: u64, lines: &[String])
     }
 }
 
-pub fn generate(_out: &mut Out, _ro: &mut Reopener, _rng: &mut Rng, _case_no: &mut u64, _n: u64, _tmp: &str) {}
+pub fn generate(_out: &mut Out, _rng: &mut Rng, _case_no: &mut u64, _n: u64, _tmp: &str) {}
